@@ -247,6 +247,9 @@ func TestVerifC19Sched(t *testing.T) {
 				return
 			}
 		}
+		if rp.Scenario == "" {
+			return // a replay file of another part
+		}
 		t.Fatalf("scenario %q not found", rp.Scenario)
 	}
 	si, sn := vrep.Shard()
